@@ -47,7 +47,26 @@ type PoliciesData struct {
 }
 
 type StreamsData struct {
-	stream *streams.Stream
+	// streamLock guards the stream pointer: a reload publishes a new stream
+	// while transactions, metrics updates and admin handlers read the current one.
+	streamLock sync.RWMutex
+	stream     *streams.Stream
+}
+
+// getStream returns the stream that currently serves transactions. The lock
+// only covers reading the pointer: callers keep the returned stream for their
+// whole operation, nothing is executed while the lock is held.
+func (sd *StreamsData) getStream() *streams.Stream {
+	sd.streamLock.RLock()
+	defer sd.streamLock.RUnlock()
+	return sd.stream
+}
+
+// setStream publishes a fully initialized stream.
+func (sd *StreamsData) setStream(stream *streams.Stream) {
+	sd.streamLock.Lock()
+	defer sd.streamLock.Unlock()
+	sd.stream = stream
 }
 
 type HandlingDataManager struct {
@@ -103,7 +122,7 @@ func (rd *HandlingDataManager) Setup(telemetryWriter *logging.LunarTelemetryWrit
 		if err != nil {
 			return fmt.Errorf("failed to initialize metric manager: %w", err)
 		}
-		rd.metricManager.UpdateMetricsForFlow(rd.stream)
+		rd.metricManager.UpdateMetricsForFlow(rd.getStream())
 		return nil
 	}
 	rd.doctor.WithPolicies(rd.GetTxnPoliciesAccessor)
@@ -137,8 +156,8 @@ func (rd *HandlingDataManager) GetTxnPoliciesAccessor() *config.TxnPoliciesAcces
 }
 
 func (rd *HandlingDataManager) GetLoadedStreamsConfig() *network.ConfigurationData {
-	if rd.isStreamsEnabled && rd.stream != nil {
-		f := rd.stream.GetLoadedConfig()
+	if stream := rd.getStream(); rd.isStreamsEnabled && stream != nil {
+		f := stream.GetLoadedConfig()
 		return &f
 	}
 	return nil
@@ -235,7 +254,7 @@ func (rd *HandlingDataManager) initializeStreams() (err error) {
 	statusMsg.AddMessage(lunarEngine, "Engine: Lunar Flows")
 	_ = lunar_context.NewSharedState[int64]() // For Redis initialization
 	var previousHaProxyReq *config.HAProxyEndpointsRequest
-	if rd.stream != nil {
+	if rd.getStream() != nil {
 		previousHaProxyReq = rd.buildHAProxyFlowsEndpointsRequest()
 	}
 
@@ -252,10 +271,10 @@ func (rd *HandlingDataManager) initializeStreams() (err error) {
 	}
 	// The new stream starts serving transactions only once it is fully
 	// initialized; on failure the previous one stays in place.
-	rd.stream = stream
+	rd.setStream(stream)
 	verifhook.Yield("engine.published")
 
-	rd.stream.InitializeHubCommunication()
+	stream.InitializeHubCommunication()
 	if err = config.WaitForProxyHealthcheck(); err != nil {
 		return fmt.Errorf("failed to wait for HAProxy healthcheck: %w", err)
 	}
@@ -324,8 +343,9 @@ func (rd *HandlingDataManager) handleOnError() func(http.ResponseWriter, *http.R
 			return
 		}
 
+		stream := rd.getStream()
 		for failedTransactionID := range failedTransactions.FailedTransactions {
-			rd.stream.OnError(failedTransactionID)
+			stream.OnError(failedTransactionID)
 		}
 
 		SuccessResponse(writer, "Error logged successfully")
@@ -565,7 +585,7 @@ func (rd *HandlingDataManager) buildHAProxyFlowsEndpointsRequest() *config.HAPro
 	reqCaptureForAll := false
 
 	managedEndpoints := []*config.HAProxyEndpointData{}
-	for _, filters := range rd.stream.GetSupportedFilters() {
+	for _, filters := range rd.getStream().GetSupportedFilters() {
 		if len(filters) == 0 {
 			continue
 		}
@@ -670,6 +690,6 @@ func (rd *HandlingDataManager) reloadFlows() error {
 		return fmt.Errorf("failed to load metrics config: %v", err)
 	}
 
-	rd.metricManager.UpdateMetricsForFlow(rd.stream)
+	rd.metricManager.UpdateMetricsForFlow(rd.getStream())
 	return nil
 }
